@@ -183,6 +183,7 @@ def run(chk):
     # ---------------------------------------------------------------- copy-complete
     copy_complete(chk, src)
     scalar_prefactor(chk, src)
+    buffer_immutable(chk, src)
     # ---------------------------------------------------------------- resolution
     unres = sorted(f"{w} .{m}() x{n}" for (w, m), n in eng.unresolved.items())
     chk.ob("resolution", "unresolved calls on tracked objects", True, "", unres[:40] or "none", "listed; each is treated as may-mutate")
@@ -253,6 +254,64 @@ def scalar_prefactor(chk, src):
     # tree family: recorded, not an obligation (no in-place update of a tree prefactor exists)
     tl = src.func("renormalizer/tn/tree.py", "TTNBase.load")
     chk.note("TTNS.load restores coeff as the 0-d array read from the npz (setattr(instance, attr, npload[attr])); harmless today because no tree code updates coeff in place")
+
+
+def buffer_immutable(chk, src):
+    """Site tensors of chain objects are shared between objects: `X.conj()` of a real-valued state / operator wraps the *same* numpy buffers (ndarray.conj() returns the
+    array itself for real dtypes and Matrix(...) does not copy), conj_trans of a real operator likewise.  This is sound only because no code writes into a tensor
+    buffer in place - every update rebinds a site to a new array.  The rule keeps that invariant: in the chain family no statement writes through `<site>.array`
+    (augmented assignment, slice assignment, `out=`), and none slice-assigns / augments a site tensor obtained from a state (`Matrix.__setitem__` writes in place)."""
+    chk.rule("buffer-immutable", "no in-place write into a site tensor buffer (buffers are shared by conj() of real objects)", 7)
+    fam = ["renormalizer/mps/mp.py", "renormalizer/mps/mps.py", "renormalizer/mps/mpo.py", "renormalizer/mps/mpdm.py", "renormalizer/mps/lib.py",
+           "renormalizer/mps/thermalprop.py", "renormalizer/mps/gs.py"]
+    cj = src.func("renormalizer/mps/mp.py", "MatrixProduct.conj")
+    shares = [norm_stmt(n, 70) for n in ast.walk(cj.node) if isinstance(n, ast.Assign) and isinstance(n.value, ast.Call) and isinstance(n.value.func, ast.Attribute) and n.value.func.attr == "conj"]
+    chk.table("buffer_sharing_sites", [f"{cj.where}: {x}  (ndarray.conj() of a real array is the array itself)" for x in shares])
+    for rel in fam:
+        if not src.has_module(rel):
+            continue
+        bad = []
+        for fi in src.funcs_in(rel):
+            if fi.parent is not None:
+                continue
+            # names bound to site tensors of a state: `x = <obj>[<index>]` / loop variables over a state object, where <obj> is self or a parameter
+            params = set(fi.params())
+            sites = set()
+            for n in ast.walk(fi.node):
+                if isinstance(n, ast.Assign) and len(n.targets) == 1 and isinstance(n.targets[0], ast.Name) and isinstance(n.value, ast.Subscript) \
+                        and isinstance(n.value.value, ast.Name) and n.value.value.id in params and not isinstance(n.value.slice, ast.Slice):
+                    sites.add(n.targets[0].id)
+                if isinstance(n, ast.For):
+                    it_ = n.iter
+                    if isinstance(it_, ast.Call) and unparse(it_.func) == "enumerate" and it_.args:
+                        tgt = n.target.elts[1] if isinstance(n.target, ast.Tuple) and len(n.target.elts) == 2 else None
+                        it_ = it_.args[0]
+                    else:
+                        tgt = n.target
+                    if isinstance(it_, ast.Name) and it_.id in params and isinstance(tgt, ast.Name) and fi.cls is not None and it_.id == "self":
+                        sites.add(tgt.id)
+
+            def through_array(t):
+                while isinstance(t, ast.Subscript):
+                    t = t.value
+                return isinstance(t, ast.Attribute) and t.attr == "array"
+
+            def site_item(t):
+                return isinstance(t, ast.Subscript) and isinstance(t.value, ast.Name) and t.value.id in sites
+            for n in ast.walk(fi.node):
+                if isinstance(n, ast.AugAssign) and (through_array(n.target) or site_item(n.target)):
+                    bad.append(f"{fi.qual}:{n.lineno}: {norm_stmt(n, 70)}")
+                if isinstance(n, ast.Assign):
+                    for t in n.targets:
+                        if (isinstance(t, ast.Subscript) and through_array(t)) or site_item(t):
+                            bad.append(f"{fi.qual}:{n.lineno}: {norm_stmt(n, 70)}")
+                if isinstance(n, ast.Call):
+                    for k in n.keywords:
+                        if k.arg == "out" and through_array(k.value):
+                            bad.append(f"{fi.qual}:{n.lineno}: {norm_stmt(n, 70)}")
+        chk.ob("buffer-immutable", rel, not bad, rel, bad[:4] or "no in-place write", "no in-place write", detail=(bad[0] if bad else "") +
+               " writes into a tensor buffer in place: a real-valued object and its conj() / conj_trans() share buffers, so the other object changes too "
+               "(and `inplace=True` scaling / normalisation of one of them rescales both)")
 
 
 MUTABLE_ATTRS = {"_mp", "qn", "qntot", "model", "compress_config", "optimize_config", "evolve_config"}
